@@ -15,7 +15,9 @@ VARIABLES tid, l, bad
 tvars == <<tid, l, bad, vars>>
 R == Batch[tid]
 
-FxOf(n, o) == [none_overrides |-> n, h_in_dict_order |-> o]
+FxOf(n, o) == [none_overrides |-> n, h_in_dict_order |-> o, snapshot_filter |-> FALSE, keep_block_repeats |-> TRUE]
+\* the walk the code is expected to follow: repeats inside a block are kept unless the strict reading is on
+CodeFx == [Good EXCEPT !.keep_block_repeats = ~StrictFirstBlock]
 ObsVals(d, k) == IF Has(d, k) THEN Get(d, k) ELSE <<>>
 \* expected against observed values of one option; a `none` ProxyCommand may also be left out of the result
 Agrees(exp, obs) == ValsMatch(exp, obs) \/ (exp = <<NoneVal>> /\ obs = <<>>)
@@ -23,23 +25,30 @@ SameAs(model, obs, keys) == \A k \in keys : Agrees(ObsVals(model, k), ObsVals(ob
 
 ValueClauses(c, hn, env, obs) ==
     LET ds == Dicts(c)
-        pt == LookupParts(c, ds, hn, env)                                   \* repaired walk, once
-        pp == LookupParts(c, DictsFx(c, FxOf(TRUE, TRUE)), hn, env)         \* pinned walk, once
+        pt == LookupParts(c, DictsFx(c, CodeFx), hn, env, CodeFx)                      \* repaired walk, once
+        pp == LookupParts(c, DictsFx(c, FxOf(TRUE, TRUE)), hn, env, FxOf(TRUE, TRUE))    \* pinned walk, once
+        lens == IF StrictFirstBlock THEN {FALSE} ELSE BOOLEAN
         a1 == pt.a1
         a2 == pt.a2
         K  == AllKeysOf(ds)
-        ok(k) == \E tp \in BOOLEAN, ur \in BOOLEAN : Agrees(DeclExpanded(a1, a2, ds, hn, env, k, tp, ur), ObsVals(obs, k))
+        okWith(k, L) == \E tp \in BOOLEAN, ur \in BOOLEAN, len \in L :
+                            Agrees(DeclExpanded(a1, a2, ds, hn, env, k, tp, ur, len), ObsVals(obs, k))
+        ok(k) == okWith(k, lens)
         explained(k, fx) == \E ur \in BOOLEAN : Agrees(ObsVals(Lookup(c, hn, env, fx, ur), k), ObsVals(obs, k))
-        why(k) == IF explained(k, FxOf(TRUE, FALSE)) THEN "P_value:proxycommand_none_overrides_earlier_value_in_block"
+        why(k) == IF StrictFirstBlock /\ explained(k, Lax) THEN "P_value:identityfile_repeat_inside_first_contributing_block_kept"
+                  ELSE IF explained(k, [Lax EXCEPT !.snapshot_filter = TRUE]) THEN "P_value:identityfile_repeat_inside_later_block_kept"
+                  ELSE IF explained(k, FxOf(TRUE, FALSE)) THEN "P_value:proxycommand_none_overrides_earlier_value_in_block"
                   ELSE IF explained(k, FxOf(FALSE, TRUE)) THEN "P_value:percent_h_expanded_before_hostname"
                   ELSE IF explained(k, FxOf(TRUE, TRUE)) THEN "P_value:none_override_and_percent_h_order"
                   ELSE "P_value:unexplained"
     IN  (IF StableFrom(a1, a2, c) THEN {<<why(k), k>> : k \in {x \in K : ~ok(x)}}
                                   ELSE {<<"C_ambiguous_match_block_not_judged", "">>})
+        \cup {<<"C_identityfile_repeat_inside_first_contributing_block_kept", k>> :
+                 k \in {x \in K \cap ListKeys : StableFrom(a1, a2, c) /\ ok(x) /\ ~okWith(x, {FALSE})}}
         \cup {<<"P_unexpected_key", k>> : k \in KeysOf(obs) \ K}
         \cup (IF SameAs(ExpandAll(pp.raw, hn, env, FxOf(TRUE, TRUE), FALSE), obs, K \cup KeysOf(obs)) THEN {}
               ELSE {<<"C_differs_from_pinned_walk", "">>})
-        \cup (IF SameAs(ExpandAll(pt.raw, hn, env, Good, FALSE), obs, K \cup KeysOf(obs)) THEN {}
+        \cup (IF SameAs(ExpandAll(pt.raw, hn, env, CodeFx, FALSE), obs, K \cup KeysOf(obs)) THEN {}
               ELSE {<<"C_differs_from_repaired_walk", "">>})
 
 HostnamesClauses(c, gh) ==
